@@ -59,7 +59,9 @@ func CreateTypesTable(i interface{}) TypesTable {
 			if key.Kind() == reflect.Interface {
 				key = key.Elem()
 			}
-			if key.Kind() == reflect.String && value.IsValid() && value.CanInterface() {
+			// (a key of a type defined from string is another key than the
+			// plain string the VM looks up)
+			if key.Type() == reflect.TypeOf("") && value.IsValid() && value.CanInterface() {
 				types[key.String()] = Tag{Type: reflect.TypeOf(value.Interface())}
 			}
 		}
